@@ -14,9 +14,9 @@ def model_check(run, max_iter, max_start):
         raise tlc.TLCError('OptControl: %s violated\n%s' % (res.violation, res.out[-1500:]))
     run.add_tlc(res, 'MC_OptControl (MaxIter=%d, MaxStart=%d: ReportCorrect, Termination, ASSUME SplitTheorem)' % (max_iter, max_start))
     for act in ('Loop', 'Assemble', 'Check', 'Solve', 'Update', 'Final', 'Ret'):
-        if res.coverage.get('OptControl!' + act, 0) == 0:
+        if res.coverage.get('OptLoop!' + act, 0) == 0:
             raise tlc.TLCError('vacuity guard: action %s of OptControl never taken (%r)' % (act, res.coverage))
-    run.notes['optcontrol_action_coverage'] = {k: v for k, v in res.coverage.items() if k.startswith('OptControl!') and k.split('!')[1][0].isupper()}
+    run.notes['optcontrol_action_coverage'] = {k: v for k, v in res.coverage.items() if k.startswith('OptLoop!') and k.split('!')[1][0].isupper()}
     res.cleanup()
     # model mutant: a report that counts the incomplete last iteration must be caught (vacuity guard on the theorem itself)
     cfg2 = 'SPECIFICATION Spec\nCONSTANTS\n MaxIter = 3\n MaxStart = 1\nINVARIANT MutantReport\n'
@@ -25,6 +25,9 @@ def model_check(run, max_iter, max_start):
     if not r2.violation:
         raise tlc.TLCError('vacuity guard: the model mutant (num_iterations + 1 on early stop) was NOT caught')
     run.notes['model_mutant_caught'] = True
+    # beyond the bound: TLAPS proves an inductive invariant of the loop for EVERY MaxIter / MaxStart / stop function (final_chi2 is the chi^2 of the
+    # returned state; 1 <= num_iterations <= max_iter)
+    run.notes['tlaps'] = tlc.tlapm('OptControlProofs')
 
 
 def check(run):
